@@ -501,12 +501,17 @@ class Know:
     # -- linear intervals
     @staticmethod
     def _norm(terms):
-        """Normalise the non-constant part: returns (key, sign) with first coefficient positive."""
+        """Normalise the non-constant part: returns (key, mult) with terms == mult * key,
+        key having coprime coefficients and a positive first coefficient."""
         items = sorted(((l, c) for l, c in terms.items() if c != 0), key=lambda x: repr(x[0]))
         if not items:
             return (), 1
-        sign = 1 if items[0][1] > 0 else -1
-        return tuple((l, c * sign) for l, c in items), sign
+        from math import gcd
+        g = 0
+        for _, c in items:
+            g = gcd(g, abs(c))
+        mult = g if items[0][1] > 0 else -g
+        return tuple((l, c // mult) for l, c in items), mult
 
     def _plain_interval(self, terms):
         lo = hi = 0
@@ -526,10 +531,17 @@ class Know:
         if not terms:
             return c0, c0
         lo, hi = self._plain_interval(terms)
-        key, sign = self._norm(terms)
+        key, mult = self._norm(terms)
         b = self.bounds.get(key)
         if b is not None:
-            blo, bhi = b if sign > 0 else (-b[1] if b[1] is not None else None, -b[0] if b[0] is not None else None)
+            # terms = mult * key, lo_k <= key <= hi_k
+            klo, khi = b
+            if mult > 0:
+                blo = klo * mult if klo is not None else None
+                bhi = khi * mult if khi is not None else None
+            else:
+                blo = khi * mult if khi is not None else None
+                bhi = klo * mult if klo is not None else None
             if blo is not None:
                 lo = max(lo, blo)
             if bhi is not None:
@@ -548,8 +560,6 @@ class Know:
                     for l, c in rkey:
                         rest[l] = rest.get(l, 0) - c * sgn
                     rest = {l: c for l, c in rest.items() if c != 0}
-                    if len(rest) > len(terms):
-                        continue
                     plo, phi = self._plain_interval(rest)
                     a, b2 = (rlo, rhi) if sgn > 0 else ((-rhi if rhi is not None else None), (-rlo if rlo is not None else None))
                     if a is not None:
@@ -569,9 +579,16 @@ class Know:
             lo -= c0
         if hi is not None:
             hi -= c0
-        key, sign = self._norm(terms)
-        if sign < 0:
+        key, mult = self._norm(terms)
+        # lo <= mult * key <= hi
+        if mult < 0:
             lo, hi = (-hi if hi is not None else None), (-lo if lo is not None else None)
+        m = abs(mult)
+        if m != 1:
+            if lo is not None:
+                lo = -((-lo) // m)      # ceil
+            if hi is not None:
+                hi = hi // m            # floor
         if len(key) == 1 and key[0][1] == 1:
             leaf = key[0][0]
             a = self.leaf_allowed(leaf)
